@@ -8,10 +8,10 @@ FLOOR = 30
 TECHNIQUE = ('static analysis: typestate dataflow to a fixpoint over the extracted FSM (abstract store: driven SCL level, '
              'operation in progress) plus guard/driver rules')
 DECIDES = ('Forward typestate analysis over the FSM of I2CInitiator (helper closures scl_l / scl_h / stb_x inlined), abstract '
-           'store = {level of the driven SCL: L/H} x {operation chosen when leaving idle: start/stop/write/read}, transfer '
+           'store = {level of the driven SCL: L/H} x {level of the driven SDA: 0/1/data} x {operation chosen when leaving idle: start/stop/write/read}, transfer '
            'functions taken from the extracted assignments, edge guards `scl_o == 1` refine the level: (a) every assignment to '
-           'the driven SDA happens with SCL = L, except a constant 0 during a START operation and a constant 1 during a STOP '
-           'operation; (b) every operation returns to idle with SCL = H and idle is entered with SCL = H only; (c) a write '
+           'the driven SDA happens with SCL = L, except a constant 0 during a START operation and a constant 1 during a STOP operation; the shortcut edges '
+           'from idle straight to the edge-making state require SDA at the opposite level (STOP: ~sda_o, START: sda high); (b) every operation returns to idle with SCL = H and idle is entered with SCL = H only; (c) a write '
            'drives sda from bit 7 of the shift register, shifts left by one per bit and runs eight bitno steps before the '
            'acknowledge cycle; a read shifts sda_i in at bit 0 (MSB first) the same way; ack_o, the read bits and data_o are '
            'captured on the exit of an SCL-high state, which (with clock stretching) requires scl_i == 1; (d) busy is '
@@ -23,55 +23,71 @@ OPS = {'self.start': 'start', 'self.stop': 'stop', 'self.write': 'write', 'self.
 
 
 def typestate(ctx, ir, fsm):
-    """Returns {state: set((op, level))} -- level of the driven SCL on entry/while in the state."""
+    """Returns {state: set((op, scl_level, sda_level))} -- levels of the driven SCL / SDA on entry / while in the state.
+    sda_level is '0', '1' or '?' (data dependent)."""
     idle = fsm.init
     init_level = 'H' if getattr(ir.signals.get(SCL), 'init', None) == 1 else 'L'
+    init_sda = '1' if getattr(ir.signals.get(SDA), 'init', None) == 1 else '0'
     val = {s: set() for s in fsm.states}
-    val[idle].add((None, init_level))
-    scl_assigns = {}
+    val[idle].add((None, init_level, init_sda))
+    scl_assigns, sda_assigns = {}, {}
     for a in ir.drivers(SCL, exact=True):
         if a.state and a.rhs.op == 'const' and a.domain != 'comb':
             scl_assigns.setdefault(a.state[1], []).append(a)
         else:
             ctx.need(False, 'every driver of scl_o is a constant assignment inside an FSM state: %s' % q.fmt(a))
+    for a in ir.drivers(SDA, exact=True):
+        ctx.need(a.state is not None and a.domain != 'comb', 'sda_o is only written inside FSM states: %s' % q.fmt(a))
+        sda_assigns.setdefault(a.state[1], []).append(a)
 
     def levels_in(s, entry):
         """levels the driven SCL can have while the FSM sits in s (entry values + in-state updates)."""
-        out = {l for _, l in entry}
+        out = {l for _, l, _ in entry}
         for a in scl_assigns.get(s, []):
             out.add('H' if a.rhs.val else 'L')
         return out
+
+    def sda_val(a):
+        return str(a.rhs.val) if a.rhs.op == 'const' else '?'
     changed = True
     n = 0
     while changed:
         changed = False
         n += 1
-        ctx.need(n < 200, 'typestate fixpoint')
+        ctx.need(n < 300, 'typestate fixpoint')
         for s in fsm.states:
             if not val[s]:
                 continue
-            ops = {o for o, _ in val[s]}
-            lv = levels_in(s, val[s])
             for e in fsm.out_edges(s):
                 ea = dict(guard_atoms(e.guard))
-                lv_e = set(lv)
-                if ea.get('1 == ' + SCL) is True:
-                    lv_e &= {'H'}
-                if ea.get('1 == ' + SCL) is False or ea.get('0 == ' + SCL) is True:
-                    lv_e &= {'L'}
-                # assignments executed with this edge (same guard or a subset of it)
-                for a in scl_assigns.get(s, []):
-                    if q.atoms(a) <= q.atoms(e):
-                        lv_e = {'H' if a.rhs.val else 'L'}
-                new_ops = ops
-                if s == idle:
-                    tag = [OPS[x] for x, p in ea.items() if p and x in OPS]
-                    ctx.need(len(tag) == 1, 'operation selected by an edge out of idle: %s' % q.fmt(e))
-                    new_ops = {tag[0]}
-                for o in new_ops:
+                for (o, l0, d0) in list(val[s]):
+                    lv_e = levels_in(s, {(o, l0, d0)})
+                    if ea.get('1 == ' + SCL) is True:
+                        lv_e &= {'H'}
+                    if ea.get('1 == ' + SCL) is False or ea.get('0 == ' + SCL) is True:
+                        lv_e &= {'L'}
+                    for a in scl_assigns.get(s, []):
+                        if q.atoms(a) <= q.atoms(e):
+                            lv_e = {'H' if a.rhs.val else 'L'}
+                    # driven SDA: refined by the guard (the bus is wired-AND: sda_i high implies we do not pull it low)
+                    d = d0
+                    if ea.get(SDA) is True or ea.get('self.bus.sda_i') is True:
+                        d = '1'
+                    if ea.get(SDA) is False:
+                        d = '0'
+                    if (d0 == '0' and d == '1') or (d0 == '1' and d == '0'):
+                        continue                       # infeasible for this abstract value
+                    for a in sda_assigns.get(s, []):
+                        if q.atoms(a) <= q.atoms(e):
+                            d = sda_val(a)
+                    no = o
+                    if s == idle:
+                        tag = [OPS[x] for x, p in ea.items() if p and x in OPS]
+                        ctx.need(len(tag) == 1, 'operation selected by an edge out of idle: %s' % q.fmt(e))
+                        no = tag[0]
                     for l in lv_e:
-                        if (o, l) not in val[e.dst]:
-                            val[e.dst].add((o, l))
+                        if (no, l, d) not in val[e.dst]:
+                            val[e.dst].add((no, l, d))
                             changed = True
     return val, levels_in
 
@@ -92,7 +108,8 @@ def check(ctx, stretch):
         ga = dict(q.atoms(a))
         if ga.get('1 == ' + SCL) is True:
             lv &= {'H'}
-        ops = {o for o, _ in val[s]}
+        ops = {o for o, _, _ in val[s]}
+        prior = {d for _, _, d in val[s]}
         if lv <= {'L'}:
             ok, why = True, 'SCL low'
         elif a.rhs.op == 'const' and a.rhs.val == 0 and ops == {'start'}:
@@ -105,8 +122,24 @@ def check(ctx, stretch):
                'SDA is changed (%s) in state %s where %s; SDA may change while SCL is high only as the constant 0 of a START '
                'or the constant 1 of a STOP' % (q.fmt(a), s, why))
     ctx.need(n >= 8, 'sda_o assignment sites (found %d)' % n)
+    # shortcut edges: going from idle straight to the state that makes the START / STOP edge (SCL stays high) only produces
+    # that edge if the driven SDA is at the opposite level: for STOP the initiator itself must be holding SDA low, for START
+    # SDA must be released (bus SDA high implies that, the bus being wired-AND)
+    for e in fsm.out_edges(idle):
+        acts = [a for a in ir.drivers(SDA, exact=True) if a.state == (fsm.id, e.dst) and a.rhs.op == 'const']
+        if not acts or not (levels_in(e.dst, {x for x in val[e.dst]}) <= {'H'}):
+            continue
+        ea = dict(guard_atoms(e.guard))
+        for a in acts:
+            if a.rhs.val == 1:
+                ok = ea.get(SDA) is False
+                msg = 'the STOP shortcut releases SDA while SCL is high; that is a STOP only if the initiator itself holds SDA low (~sda_o): %s' % q.fmt(e)
+            else:
+                ok = ea.get(SDA) is True or ea.get('self.bus.sda_i') is True
+                msg = 'the START shortcut pulls SDA low while SCL is high; that is a START only if SDA is released/high before: %s' % q.fmt(e)
+            ctx.ob('C52.condition-shortcut', 'I2CInitiator.idle->%s[%s]' % (e.dst, tag), ok, e.loc, msg)
     # (b) idle entered with SCL high
-    lv_idle = {l for _, l in val[idle]}
+    lv_idle = {l for _, l, _ in val[idle]}
     ctx.ob('C52.idle-scl-high', 'I2CInitiator.idle[%s]' % tag, lv_idle == {'H'}, fsm.state_loc[idle],
            'idle must always be entered with SCL released (high): %s' % sorted(val[idle], key=str))
     for s in fsm.states:
@@ -123,7 +156,7 @@ def check(ctx, stretch):
     ctx.ob('C52.msb-first', 'I2CInitiator.read-shift[%s]' % tag, len(rd) == 1 and rd[0].rhs.canon() == 'Cat(self.bus.sda_i, r_shreg[0:7])', rd[0].loc if rd else None,
            'a read shifts sda_i in at bit 0 (first bit ends up as the MSB)')
     for kind in ('write', 'read'):
-        inc = [a for a in ir.drivers('bitno', exact=True) if (kind, 'L') in val[q.state_of(a)] or (kind, 'H') in val[q.state_of(a)]]
+        inc = [a for a in ir.drivers('bitno', exact=True) if any(o == kind for o, _, _ in val[q.state_of(a)])]
         ctx.need(len(inc) == 1 and inc[0].rhs.canon() == '1 + bitno', 'bit counter increment of the %s loop' % kind)
         s = q.state_of(inc[0])
         o7 = state_outcomes(fsm, s, {'stb': True, '7 == bitno': True})
